@@ -8,6 +8,7 @@ package balancer
 //@   property C03 C06
 //@   requires allNonNil(endpoints)
 //@   modifies r.counter
+//@   atomic-once r.counter
 //@   loop 1 invariant len(routable) <= i$1
 //@   loop 1 invariant forall k int :: 0 <= k && k < len(routable) ==> isRoutable(routable[k].Status) && (exists j int :: 0 <= j && j < i$1 && routable[k] == endpoints[j])
 //@   loop 1 invariant forall j int :: 0 <= j && j < i$1 && isRoutable(endpoints[j].Status) ==> (exists k int :: 0 <= k && k < len(routable) && routable[k] == endpoints[j])
@@ -18,3 +19,77 @@ package balancer
 //@   ensures err == nil <==> !noRoutable(endpoints)
 //@   ensures !noRoutable(endpoints) ==> r.counter == (old(r.counter) + 1) % 18446744073709551616
 //@   ensures len(endpoints) > 0 && (forall j int :: 0 <= j && j < len(endpoints) ==> isRoutable(endpoints[j].Status)) ==> err == nil && res == endpoints[old(r.counter) % len(endpoints)]
+
+//@ func (r *RoundRobinSelector) IncrementConnections
+//@   property C06 C19
+//@   modifies ghost(endpoint).gauge
+//@   ensures ghost(endpoint).gauge == old(ghost(endpoint).gauge) + 1
+
+//@ func (r *RoundRobinSelector) DecrementConnections
+//@   property C06 C19
+//@   modifies ghost(endpoint).gauge
+//@   ensures ghost(endpoint).gauge == old(ghost(endpoint).gauge) - 1
+
+//@ func (p *PrioritySelector) IncrementConnections
+//@   property C06 C19
+//@   modifies ghost(endpoint).gauge
+//@   ensures ghost(endpoint).gauge == old(ghost(endpoint).gauge) + 1
+
+//@ func (p *PrioritySelector) DecrementConnections
+//@   property C06 C19
+//@   modifies ghost(endpoint).gauge
+//@   ensures ghost(endpoint).gauge == old(ghost(endpoint).gauge) - 1
+
+//@ func (l *LeastConnectionsSelector) IncrementConnections
+//@   property C06 C19
+//@   modifies ghost(endpoint).gauge
+//@   ensures ghost(endpoint).gauge == old(ghost(endpoint).gauge) + 1
+
+//@ func (l *LeastConnectionsSelector) DecrementConnections
+//@   property C06 C19
+//@   modifies ghost(endpoint).gauge
+//@   ensures ghost(endpoint).gauge == old(ghost(endpoint).gauge) - 1
+
+//@ func (l *LeastConnectionsSelector) Select
+//@   property C03 C06
+//@   requires allNonNil(endpoints)
+//@   loop 1 invariant len(routable) <= i$1
+//@   loop 1 invariant forall k int :: 0 <= k && k < len(routable) ==> isRoutable(routable[k].Status) && (exists j int :: 0 <= j && j < i$1 && routable[k] == endpoints[j])
+//@   loop 1 invariant forall j int :: 0 <= j && j < i$1 && isRoutable(endpoints[j].Status) ==> (exists k int :: 0 <= k && k < len(routable) && routable[k] == endpoints[j])
+//@   loop 2 invariant i$2 == 0 ==> minConnections == -1 && selected == nil
+//@   loop 2 invariant i$2 > 0 ==> minConnections >= 0 && (exists k int :: 0 <= k && k < i$2 && selected == routable[k]) && minConnections == connectionStats[selected.URLString]
+//@   loop 2 invariant forall k int :: 0 <= k && k < i$2 ==> minConnections <= connectionStats[routable[k].URLString]
+//@   ensures err == nil ==> member(res, endpoints) && isRoutable(res.Status)
+//@   ensures err != nil ==> noRoutable(endpoints)
+//@   ensures err == nil || res == nil
+//@   ensures err == nil <==> !noRoutable(endpoints)
+//@   ensures err == nil ==> forall j int :: 0 <= j && j < len(endpoints) && isRoutable(endpoints[j].Status) ==> connSnap[res.URLString] <= connSnap[endpoints[j].URLString]
+
+//@ func (p *PrioritySelector) weightedSelect
+//@   property C03 C06
+//@   requires len(endpoints) >= 1
+//@   requires allNonNil(endpoints)
+//@   ensures member(res, endpoints)
+
+//@ func (p *PrioritySelector) Select
+//@   property C03 C06
+//@   requires allNonNil(endpoints)
+//@   loop 1 invariant len(routable) <= i$1
+//@   loop 1 invariant forall k int :: 0 <= k && k < len(routable) ==> isRoutable(routable[k].Status) && (exists j int :: 0 <= j && j < i$1 && routable[k] == endpoints[j])
+//@   loop 1 invariant forall j int :: 0 <= j && j < i$1 && isRoutable(endpoints[j].Status) ==> (exists k int :: 0 <= k && k < len(routable) && routable[k] == endpoints[j])
+//@   loop 2 invariant len(highestPriorityEndpoints) == i$2
+//@   loop 2 invariant forall k int :: 0 <= k && k < i$2 ==> highestPriorityEndpoints[k] == routable[k] && routable[k].Priority == highestPriority
+//@   ensures err == nil ==> member(res, endpoints) && isRoutable(res.Status)
+//@   ensures err != nil ==> noRoutable(endpoints)
+//@   ensures err == nil || res == nil
+//@   ensures err == nil <==> !noRoutable(endpoints)
+//@   ensures err == nil ==> forall j int :: 0 <= j && j < len(endpoints) && isRoutable(endpoints[j].Status) ==> endpoints[j].Priority <= res.Priority
+
+// Round-robin fairness as arithmetic over the ticket returned by the single atomic add (C06).
+// rrcnt(x,n,j) = #{ t in [0,x) | t mod n == j }: lemmas 1-2 show the closed form is that count
+// (base and unit step), lemma 3 that any window of n consecutive tickets contains each index once,
+// hence n*k consecutive tickets (no wrap) contain each index exactly k times (induction on k).
+//@ spec func rrcnt(x int, n int, j int) int = (x + n - 1 - j) / n
+//@ lemma rr_cnt_base C06: forall n int, j int :: n > 0 && 0 <= j && j < n ==> rrcnt(0, n, j) == 0
+//@ lemma rr_cnt_step C06: forall x int, n int, j int :: n > 0 && 0 <= j && j < n && x >= 0 ==> rrcnt(x + 1, n, j) == rrcnt(x, n, j) + ite(x % n == j, 1, 0)
+//@ lemma rr_fair_window C06: forall x int, n int, j int :: n > 0 && 0 <= j && j < n && x >= 0 ==> rrcnt(x + n, n, j) == rrcnt(x, n, j) + 1
